@@ -96,8 +96,8 @@ def _project(root, names, secs):
         for f in fn:
             p = os.path.join(dp, f)
             rel = os.path.relpath(p, root)
-            if rel.endswith(STG):
-                staging += 1
+            if rel.endswith(STG) and rel not in idx:
+                staging += 1                # (a name of the case's own universe that ends in the suffix is a user's file)
                 continue
             if os.path.islink(p) and not os.path.exists(p):
                 continue                    # a dangling link / link loop: not a file, no run lists, sends or removes it
